@@ -1409,6 +1409,9 @@ def _joint_cases(thorough):
                     if abs(lag) >= n:
                         skipped += 1
                         continue
+                    if n == 4 and thorough and lag in (-1, 2) and \
+                            (set(x) | set(y)) - {0.0, 2.0}:
+                        continue    # length 4: all five lags on two letters
                     out.append({"x": list(x), "y": list(y), "lag": lag,
                                 "emb": None})
     for emb in J_EMBS:
@@ -1460,8 +1463,8 @@ def _isrn_cases(thorough):
         ny = (emb[0] - 1) * emb[1][1] + 1
         for x in _seqs(ALPHA3 if thorough else [0.0, 2.0], nx, 4):
             for y in _seqs(ALPHA3 if thorough else [0.0, 2.0], ny, 4):
-                if len(x) + len(y) == 8 and (set(x) | set(y)) - {0.0, 2.0}:
-                    continue        # (4,4): two letters only
+                if len(x) + len(y) >= 7 and (set(x) | set(y)) - {0.0, 2.0}:
+                    continue        # (3,4), (4,3), (4,4): two letters only
                 out.append({"x": x, "y": y, "emb": [emb[0], list(emb[1])],
                             "metrics": None})
     for lx in range(1, 3):
